@@ -340,7 +340,8 @@ func rulesC19(w *World, r *Report) {
 			}
 			n++
 			fs, _ := constString(cv.Common().Args[0])
-			va := variadicArgs(cv.Common().Args[1])
+			// the unit letter may be passed as a constant argument (%c / %s) of a shared formatting helper
+			fs, va := foldConstArgs(fs, variadicArgs(cv.Common().Args[1]))
 			m := regexp.MustCompile(`^%d([a-z])$`).FindStringSubmatch(fs)
 			if m == nil || len(va) != 1 {
 				bad = append(bad, "unrecognised format "+strconv.Quote(fs))
